@@ -77,6 +77,12 @@ def readbacks(value):
     if isinstance(value, (tuple, list)):
         if is_rgb_ints(value):
             css = list(value)
+        elif len(value) == 3 and all(type(v) is float and 0.0 <= v <= 1.0 for v in value):
+            # three floats in [0, 1]: the parser's documented "fractional component values" - channel = the fraction of 255,
+            # rounded (read here independently; a fraction exactly between two channels has no single reading)
+            sc = [v * 255.0 for v in value]
+            if all(abs((x % 1.0) - 0.5) > 1e-9 for x in sc):
+                css = [int(x + 0.5) for x in sc]
     elif isinstance(value, str):
         r = refs.css_read_opaque(value)
         if r is not None:
@@ -197,14 +203,33 @@ def record_one(spec):
     wit_cache = {}
     for run in spec.get("runs", ALL_RUNS):
         mode, vr = run[0], run[1]
-        show = bool(run[2]) if len(run) > 2 else False
+        show = (len(run) > 2 and run[2] == 1) or (len(run) > 2 and run[2] is True)
+        savefault = len(run) > 2 and run[2] == 2 and run[2] is not True
         _CHAIN = [] if have_wrap else None
         raised = ""
         try:
-            if show:       # the console preview must not change what is returned (C06 / C17); its output is discarded here
+            if savefault:
+                # a report is asked for where it cannot be written (its name is taken by a directory): the call may pass the
+                # OS's error on - then there is no answer to judge; an answer that IS returned is judged like any other
+                import io, contextlib, tempfile, shutil
+                d_, cwd_ = tempfile.mkdtemp(prefix="verif_sf_"), os.getcwd()
+                os.makedirs(os.path.join(d_, "cm_colors_quick_report.html"))
+                os.chdir(d_)
+                try:
+                    with contextlib.redirect_stdout(io.StringIO()):
+                        ret = pair.make_readable(mode=mode, very_readable=vr, save_report=True)
+                except OSError:
+                    continue
+                finally:
+                    os.chdir(cwd_)
+                    shutil.rmtree(d_, ignore_errors=True)
+            elif show:       # the console preview must not change what is returned (C06 / C17); its output is discarded here
                 import io, contextlib
                 with contextlib.redirect_stdout(io.StringIO()):
                     ret = pair.make_readable(mode=mode, very_readable=vr, show=True)
+            elif (mode + int(bool(vr)) + int(bool(spec.get("large")))) % 3 == 0:
+                # the documented parameter order given by position: make_readable(mode, very_readable, show, save_report)
+                ret = pair.make_readable(mode, vr, False, False)
             else:
                 ret = pair.make_readable(mode=mode, very_readable=vr)
         except Exception as ex:
@@ -319,6 +344,9 @@ def spell(c, kind, rnd):
     if kind == "rgba3fn":
         # rgba() WITHOUT its optional alpha component: still an rgba() string
         return rnd.choice([f"rgba({r}, {g}, {b})", f"RGBA({r} {g} {b})", f"rgba({r},{g},{b})"])
+    if kind == "fractuple":
+        # the colour as fractions of 255 in [0, 1] (floats): round(f * 255) is the channel
+        return tuple(v / 255 for v in c) if c not in ((0, 0, 0), (1, 1, 1)) or True else c
     if kind == "tuplesub":
         return RGB(r, g, b)
     if kind == "listsub":
@@ -373,7 +401,7 @@ def _rgb_to_hsl_int(c):
 
 
 SPELLS = ["hex6", "hex3", "hexnohash", "hexupper", "rgbfn", "rgbpct", "hslfn", "named", "tuple", "list", "rgbafn",
-          "hslafn", "rgbatuple", "tuplesub", "listsub", "hslodd", "rgbfnsub", "hslfnsub", "rgba3fn"]
+          "hslafn", "rgbatuple", "tuplesub", "listsub", "hslodd", "rgbfnsub", "hslfnsub", "rgba3fn", "fractuple"]
 
 
 def rand_colour(rnd):
